@@ -397,8 +397,13 @@ Definition pev_eqb (a b : pev) : bool :=
     [WServer]: server/server.py — [acquire] guarded by the concurrency model,
        failure counts [requests_rejected] and discards the item.
     [WShift]: industrial/shift_schedule.py ShiftedServer — [_active += 1]
-       without a guard; [has_capacity] is [_active < _current_capacity]. *)
-Inductive wkind := WServer | WShift.
+       without a guard; [has_capacity] is [_active < _current_capacity].
+    [WReneg]: industrial/reneging.py RenegingQueuedResource with the harness
+       subclass (unguarded [_active] counter like ShiftedServer): a dequeued
+       item whose waiting time exceeds its patience is counted in [_reneged]
+       and routed to [reneged_target] instead of being served.  The patience
+       deadline [created_at + patience] of an item is its [idl] field. *)
+Inductive wkind := WServer | WShift | WReneg.
 
 Record pstate := MkPS {
   kind : wkind;
@@ -408,7 +413,8 @@ Record pstate := MkPS {
   act : Z;        (* concurrency model _active / ShiftedServer._active *)
   lim : Z;        (* FixedConcurrency._max_concurrent / DynamicConcurrency._current_limit / _current_capacity *)
   fin : Z;        (* _requests_completed / _processed *)
-  rej : Z;        (* _requests_rejected *)
+  rej : Z;        (* _requests_rejected / RenegingQueuedResource._reneged *)
+  dls : list (Z * Z);   (* id -> patience deadline (context created_at + patience_s), recorded at enqueue *)
 }.
 
 Definition has_capacity (s : pstate) : bool := act s <? lim s.
@@ -419,13 +425,13 @@ Inductive pin :=
 | IPoll (now : Z)                  (* Queue.handle_event(QueuePollEvent) -> _handle_poll *)
 | INotify                          (* QueueDriver._handle_notify *)
 | IDeliver (x : Z)                 (* QueueDriver._handle_delivery -> _handle_work_payload *)
-| IStart (x : Z)                   (* worker generator, up to the service yield (or early return) *)
+| IStart (now : Z) (x : Z)         (* worker generator, up to the service yield (or early return) *)
 | IResume (x : Z)                  (* worker generator, after the service yield *)
 | IHook                            (* completion hook schedule_poll *)
 | ISetLimit (n : Z).               (* DynamicConcurrency.set_limit / shift change: new limit (already clamped) *)
 
 Definition set_q (s : pstate) (q' : pol) : pstate :=
-  MkPS (kind s) q' (acc s) (drp s) (act s) (lim s) (fin s) (rej s).
+  MkPS (kind s) q' (acc s) (drp s) (act s) (lim s) (fin s) (rej s) (dls s).
 
 (** One handler invocation: new state, events returned, items expired by the policy. *)
 Definition pstep (s : pstate) (i : pin) : pstate * list pev * list Z :=
@@ -434,33 +440,38 @@ Definition pstep (s : pstate) (i : pin) : pstate * list pev * list Z :=
       let was_empty := pol_len (q s) =? 0 in
       let '(q', ok) := pol_push balk it (q s) in
       if ok then
-        (MkPS (kind s) q' (acc s + 1) (drp s) (act s) (lim s) (fin s) (rej s),
+        (MkPS (kind s) q' (acc s + 1) (drp s) (act s) (lim s) (fin s) (rej s) ((iid it, idl it) :: dls s),
          if was_empty then [PNotify] else [], [])
       else
-        (MkPS (kind s) q' (acc s) (drp s + 1) (act s) (lim s) (fin s) (rej s), [], [])
+        (MkPS (kind s) q' (acc s) (drp s + 1) (act s) (lim s) (fin s) (rej s) (dls s), [], [])
   | IPoll now =>
       let '(q', r, ex) := pol_pop now (q s) in
       (set_q s q', match r with Some it => [PDeliver (iid it)] | None => [] end, map iid ex)
   | INotify => (s, if has_capacity s then [PPoll] else [], [])
   | IDeliver x => (s, [PPayload x], [])
-  | IStart x =>
+  | IStart now x =>
       match kind s with
       | WServer =>
           if lim s <=? act s
-          then (MkPS (kind s) (q s) (acc s) (drp s) (act s) (lim s) (fin s) (rej s + 1), [], [])
-          else (MkPS (kind s) (q s) (acc s) (drp s) (act s + 1) (lim s) (fin s) (rej s), [PCont x], [])
+          then (MkPS (kind s) (q s) (acc s) (drp s) (act s) (lim s) (fin s) (rej s + 1) (dls s), [], [])
+          else (MkPS (kind s) (q s) (acc s) (drp s) (act s + 1) (lim s) (fin s) (rej s) (dls s), [PCont x], [])
       | WShift =>
-          (MkPS (kind s) (q s) (acc s) (drp s) (act s + 1) (lim s) (fin s) (rej s), [PCont x], [])
+          (MkPS (kind s) (q s) (acc s) (drp s) (act s + 1) (lim s) (fin s) (rej s) (dls s), [PCont x], [])
+      | WReneg =>
+          (* wait_time > patience  <=>  now > created_at + patience *)
+          if zget x (dls s) <? now
+          then (MkPS (kind s) (q s) (acc s) (drp s) (act s) (lim s) (fin s) (rej s + 1) (dls s), [], [])
+          else (MkPS (kind s) (q s) (acc s) (drp s) (act s + 1) (lim s) (fin s) (rej s) (dls s), [PCont x], [])
       end
   | IResume x =>
       let a := match kind s with
                | WServer => Z.max 0 (act s - 1)
-               | WShift => act s - 1
+               | WShift | WReneg => act s - 1
                end in
-      (MkPS (kind s) (q s) (acc s) (drp s) a (lim s) (fin s + 1) (rej s), [], [])
+      (MkPS (kind s) (q s) (acc s) (drp s) a (lim s) (fin s + 1) (rej s) (dls s), [], [])
   | IHook => (s, if has_capacity s then [PPoll] else [], [])
   | ISetLimit n =>
-      (MkPS (kind s) (q s) (acc s) (drp s) (act s) n (fin s) (rej s), [], [])
+      (MkPS (kind s) (q s) (acc s) (drp s) (act s) n (fin s) (rej s) (dls s), [], [])
   end.
 
 (* ------------------------------------------------------------------ *)
@@ -519,7 +530,7 @@ Definition wstep (w : world) (l : wlabel) : option (world * list pev) :=
               let '(s', out, _) := pstep (ps w) (IDeliver x) in
               Some (MkW s' (rest ++ out) (l_off w) (l_drop w) (l_exp w) (l_done w) (l_disc w), out)
           | PPayload x =>
-              let '(s1, out1, _) := pstep (ps w) (IStart x) in
+              let '(s1, out1, _) := pstep (ps w) (IStart now x) in
               if existsb is_cont out1 then
                 Some (MkW s1 (rest ++ out1) (l_off w) (l_drop w) (l_exp w) (l_done w) (l_disc w), out1)
               else
@@ -542,7 +553,7 @@ Fixpoint wrun (w : world) (ls : list wlabel) : option world :=
   | l :: r => match wstep w l with Some (w', _) => wrun w' r | None => None end
   end.
 
-Definition ps0 (k : wkind) (p : pol) (limit : Z) : pstate := MkPS k p 0 0 0 limit 0 0.
+Definition ps0 (k : wkind) (p : pol) (limit : Z) : pstate := MkPS k p 0 0 0 limit 0 0 [].
 Definition w0 (k : wkind) (p : pol) (limit : Z) : world := MkW (ps0 k p limit) [] [] [] [] [] [].
 
 (** Classes of the ledger that are read off the state. *)
@@ -635,3 +646,7 @@ Fixpoint ok_pipe_from (w : world) (tr : list (wlabel * list pev * wsnap * psnap)
 
 Definition ok_pipeline (c : wkind * pol * Z * list (wlabel * list pev * wsnap * psnap)) : bool :=
   let '(k, p, limit, tr) := c in ok_pipe_from (w0 k p limit) tr.
+
+(** Several resources of one run (servers feeding one another). *)
+Definition ok_pipelines (cs : list (wkind * pol * Z * list (wlabel * list pev * wsnap * psnap))) : bool :=
+  forallb ok_pipeline cs.
